@@ -174,3 +174,25 @@ Example C01_across_epochs_example :
   map epoch_blocks (model_epochs 200 (fun _ => 0) (mk_policy 1 0 ex_vals 1 2) 0 (start 1 ex_vals) ex_vals 1 me_Ds').
 Proof. exact (conj me_same_sets (conj me_orders_differ (conj me_ok (conj me_ok' me_agreement)))). Qed.
 Print Assumptions C01_agreement_for_the_model_across_epochs.
+
+(* ================= Round 3 (worker link): instances that only call Process =================
+   (proofs/LinkXCor.v: link_x_builds_invisible, from LinkEpochsX.link_x)  The Build of an event is optional
+   in every slot of a schedule (LinkX.xslot.x_build).  C01_process_only_instances_agree: the run of an instance
+   that is fed by Process only (nobuild_S: every Build removed) equals the run of the instance that Builds every
+   event first, the Build frames erased -- over several epochs under an arbitrary policy, with noise and
+   rejected events: same verdicts, same decided frame and epoch after every Process (the last decided
+   state), same blocks (frame, Atropos, cheaters, seal), same epoch transitions and validator sets. *)
+From LV Require Import proofs.LinkReject proofs.LinkX proofs.LinkEpochsX proofs.LinkXCheck proofs.LinkXCor proofs.LinkXExample proofs.LinkXCorExample.
+
+Theorem C01_process_only_instances_agree : forall cap lam pol vals Ss K,
+  vals <> [] -> epochs_ok_x pol K vals 1 Ss -> N.of_nat (total_builds Ss) <= K -> K < 2 ^ 192 ->
+  map erase_builds (model_epochs_x cap lam pol (start 1 vals) vals 1 Ss) = model_epochs_x cap lam pol (start 1 vals) vals 1 (map nobuild_S Ss).
+Proof. exact link_x_builds_invisible. Qed.
+
+Example C01_process_only_example :
+  epochs_ok_xb xx_pol 400 ex_vals 1 xx_Ss = true /\ total_builds xx_Ss = 87%nat /\ total_builds (map nobuild_S xx_Ss) = 4%nat /\
+  map erase_builds (model_epochs_x 3 xx_lam xx_pol (start 1 ex_vals) ex_vals 1 xx_Ss) =
+  model_epochs_x 3 xx_lam xx_pol (start 1 ex_vals) ex_vals 1 (map nobuild_S xx_Ss).
+Proof. split; [exact xx_input_ok|]. split; [exact xx_builds|]. split; [vm_compute; reflexivity | exact xx_builds_invisible]. Qed.
+
+Print Assumptions C01_process_only_instances_agree.
